@@ -110,6 +110,8 @@ struct Plan {
   uint64_t ops_hash() const {
     uint64_t h = 0xcbf29ce484222325ull;
     for (auto& p : ops) h = fnv1a(p.second.to_text(), h ^ uint64_t(p.first + 1));
+    if (ops.empty())  // plans that consist of parameters only (e2 two-setter enumeration)
+      for (auto& kv : cfg) h = fnv1a(kv.first + "=" + kv.second, h);
     return h;
   }
 };
